@@ -25,6 +25,9 @@ META = {
                    "char::is_control == general category Cc (std contract), format!'s {:0Nx} semantics, rustc MIR, tmfacts. "
                    "NUL and the empty pattern are excluded by the property."),
 }
+# --- additions to the level description (rules added after the first version)
+META['level_text'] += ' R4 also: the unit file is opened with write+truncate, never append.'
+# --- end additions
 
 ESC = "udev_utils::escape_one_char"
 ARG = "udev_utils::systemd_arg_escape"
@@ -52,6 +55,8 @@ class Table:
                     ok = ok and (ctrl == v)
                 elif k[0] == "lt":
                     ok = ok and ((cp < k[1]) == v)
+                elif k[0] == "cmp":
+                    ok = ok and (_cmp(k, cp) == v)
             if ok:
                 return render(spec, cp)
         return None
@@ -131,6 +136,14 @@ def extract_table(ctx, ck):
             if isinstance(a, tuple) and a[0] == "binop" and a[1] == "Lt" and _uncast(a[2]) == c and const_int(a[3]) is not None:
                 conds[("lt", const_int(a[3]))] = v
                 continue
+            # range patterns (`0..=127 =>`) and the other comparison operators, constant on either side
+            if isinstance(a, tuple) and a[0] == "binop" and a[1] in ("Lt", "Le", "Gt", "Ge"):
+                if _uncast(a[2]) == c and const_int(a[3]) is not None:
+                    conds[("cmp", a[1], "x?K", const_int(a[3]))] = v
+                    continue
+                if _uncast(a[3]) == c and const_int(a[2]) is not None:
+                    conds[("cmp", a[1], "K?x", const_int(a[2]))] = v
+                    continue
             bad = True
             tab.problems.append("unrecognised condition %s" % show(a)[:80])
         if bad:
@@ -145,6 +158,12 @@ def extract_table(ctx, ck):
                 tab.problems.append("arm %r does not return a literal" % chr(arm))
                 continue
             tab.arms[arm] = lit
+            continue
+        # class leaf: the character itself, as c.to_string() / String::from(c)
+        r0 = mir.strip(ret)
+        if isinstance(r0, tuple) and r0[0] == "call" and mir.method_name(r0[1]) in ("to_string", "from", "into") and len(r0[2]) == 1 and mir.strip(r0[2][0]) == c \
+                and ("char" in r0[1] or "String" in r0[1] or "ToString" in r0[1]):
+            tab.classes.append((conds, {"kind": "identity", "prefix": "", "suffix": "", "width": 0, "fill": " ", "ty": "", "alt": False, "raw": "to_string"}))
             continue
         # class leaf: format!(template, value)
         fmt = [s for s in subterms(ret) if isinstance(s, tuple) and s and s[0] == "call" and s[1].startswith("std::fmt::Arguments::") and mir.method_name(s[1]) == "new"]
@@ -199,7 +218,16 @@ def _in_class(conds, cp):
         elif k[0] == "lt":
             if (cp < k[1]) != v:
                 return False
+        elif k[0] == "cmp":
+            if _cmp(k, cp) != v:
+                return False
     return True
+
+
+def _cmp(k, cp):
+    _, op, side, K = k
+    a, b = (cp, K) if side == "x?K" else (K, cp)
+    return {"Lt": a < b, "Le": a <= b, "Gt": a > b, "Ge": a >= b}[op]
 
 
 def unit_kind(out):
@@ -561,3 +589,37 @@ def unit_writer_rule(ctx, ck):
                 else:
                     ok, why = False, "the bytes written are %s, not build_service_text(excludes) itself" % mir.show(data)[:100]
     ck.ob("C17-R4", fn, "the-unit-file-receives-build_service_text(excludes)-byte-for-byte", ok, detail=why)
+    okf, whyf = file_replaced_whole(ctx, b)
+    ck.ob("C17-R4", fn, "the-unit-file-is-replaced,not-overlaid(truncate+write,no-append)", okf, detail=whyf)
+
+
+def file_replaced_whole(ctx, b):
+    """every file the function opens for writing is opened so that it ends up holding exactly what is written now:
+    File::create(..), or OpenOptions with write(true), truncate(true) and without append(true).  (Without truncation an
+    older, longer file keeps its tail after the new text.)  -> (ok, why)"""
+    from .. import mir
+    n = 0
+    for p in mir.walk_function(b):
+        for e in p.events:
+            if e.kind != "call":
+                continue
+            if e.a.endswith("fs::File::create"):
+                n += 1
+                continue
+            if mir.method_name(e.a) == "open" and "OpenOptions" in e.a:
+                n += 1
+                opts = {}
+                t = e.b[0]
+                for _ in range(12):
+                    t = mir.strip(t)
+                    if isinstance(t, tuple) and t[0] == "call" and "OpenOptions" in t[1] and mir.method_name(t[1]) in ("truncate", "write", "append", "create", "read", "create_new") and len(t[2]) == 2:
+                        opts.setdefault(mir.method_name(t[1]), mir.const_int(t[2][1]))
+                        t = t[2][0]
+                    else:
+                        break
+                if opts.get("write") != 1 or opts.get("truncate") != 1 or opts.get("append") == 1:
+                    return False, "opened with %s" % ", ".join("%s(%s)" % (k, {1: "true", 0: "false"}.get(v, "?")) for k, v in sorted(opts.items()))
+    if not n:
+        return False, "no file is opened for writing"
+    return True, None
+
